@@ -2,9 +2,11 @@ module github.com/matrix-org/gomatrixserverlib
 
 require (
 	github.com/google/go-cmp v0.7.0
+	github.com/hashicorp/go-set/v3 v3.0.0
 	github.com/matrix-org/gomatrix v0.0.0-20220926102614-ceba4d9f7530
 	github.com/matrix-org/util v0.0.0-20221111132719-399730281e66
 	github.com/miekg/dns v1.1.66
+	github.com/oleiade/lane/v2 v2.0.0
 	github.com/sirupsen/logrus v1.9.3
 	github.com/stretchr/testify v1.10.0
 	github.com/tidwall/gjson v1.18.0
@@ -19,8 +21,6 @@ require (
 	github.com/davecgh/go-spew v1.1.1 // indirect
 	github.com/frankban/quicktest v1.14.6 // indirect
 	github.com/h2non/parth v0.0.0-20190131123155-b4df798d6542 // indirect
-	github.com/hashicorp/go-set/v3 v3.0.0 // indirect
-	github.com/oleiade/lane/v2 v2.0.0 // indirect
 	github.com/pmezard/go-difflib v1.0.0 // indirect
 	github.com/tidwall/match v1.1.1 // indirect
 	github.com/tidwall/pretty v1.2.1 // indirect
